@@ -15,6 +15,7 @@
 #include <pika/runtime/thread_pool_helpers.hpp>
 #include <pika/modules/resource_partitioner.hpp>
 #include <pika/semaphore.hpp>
+#include <pika/stop_token.hpp>
 #include <pika/thread.hpp>
 #include <pika/threading_base/register_thread.hpp>
 #include <pika/threading_base/thread_init_data.hpp>
@@ -74,6 +75,16 @@ static std::atomic<bool> g_flag_stop{false};
 // semaphores on which a task waits through the TIMED overload are released by the same OS thread (a task polling its
 // deadline is re-queued with boosted priority and could starve a releasing task)
 static std::vector<std::shared_ptr<pika::counting_semaphore<>>> g_sems;
+// two tasks wait on ONE condition_variable_any, each with its own stop token and a predicate that never holds; the OS thread
+// requests stop for the waiter that enqueued LAST first, then for the other: every stop request must resume its own waiter
+struct stop_pair
+{
+    pika::condition_variable_any cv;
+    std::mutex m;
+    pika::stop_source src[2];
+    int order = 0;    // under m: number of waiters that are about to wait (wait releases m once enqueued)
+};
+static std::vector<std::shared_ptr<stop_pair>> g_pairs;
 static void flag_setter()
 {
     std::uint64_t k = 0;
@@ -81,10 +92,29 @@ static void flag_setter()
     {
         std::vector<std::shared_ptr<std::atomic<bool>>> todo;
         std::vector<std::shared_ptr<pika::counting_semaphore<>>> sems;
+        std::vector<std::shared_ptr<stop_pair>> pairs;
         {
             std::lock_guard<std::mutex> l(g_flag_mtx);
             todo.swap(g_flags);
             sems.swap(g_sems);
+            pairs.swap(g_pairs);
+        }
+        for (auto& p : pairs)
+        {
+            bool ready = false;
+            {
+                std::lock_guard<std::mutex> l(p->m);    // both waiters have released m, i.e. are enqueued
+                ready = p->order == 2;
+            }
+            if (!ready)
+            {
+                std::lock_guard<std::mutex> l(g_flag_mtx);
+                g_pairs.push_back(p);
+                continue;
+            }
+            p->src[1].request_stop();    // the waiter that enqueued last
+            std::this_thread::sleep_for(std::chrono::microseconds(30));
+            p->src[0].request_stop();
         }
         if (todo.empty() && sems.empty()) { std::this_thread::sleep_for(std::chrono::microseconds(50)); continue; }
         // varying delay: the release lands before, around and after the waiter's deadline
@@ -175,6 +205,9 @@ static void task_body(long id, std::uint64_t seed, int depth, int maxdepth, int 
         // timed = the parent blocks through the TIMED overload (registers in the cv queue, then polls its deadline by
         // yielding pending_boost); the release may land while the worker is still switching the yielded task off
         bool timed = shake && !spin && r.below(3) == 0;
+        // stopw = parent and first child both block in condition_variable_any::wait(lock, stop_token, pred) on one cv
+        bool stopw = shake && !spin && !timed && r.below(4) == 0;
+        auto pair = stopw ? std::make_shared<stop_pair>() : std::shared_ptr<stop_pair>();
         long timed_us = 20 + long(r.below(300));
         auto sem = std::make_shared<pika::counting_semaphore<>>(0);
         auto flag = std::make_shared<std::atomic<bool>>(false);
@@ -195,7 +228,16 @@ static void task_body(long id, std::uint64_t seed, int depth, int maxdepth, int 
                             pika::this_thread::yield();
                             cg.resume_();
                         }
-                        if (!spin && !timed) sem->release();
+                        if (stopw)
+                        {
+                            cg.pause();
+                            std::unique_lock<std::mutex> lk(pair->m);
+                            int me = pair->order++;
+                            pair->cv.wait(lk, pair->src[me].get_token(), [] { return false; });
+                            lk.unlock();
+                            cg.resume_();
+                        }
+                        else if (!spin && !timed) sem->release();
                         if (depth + 1 < maxdepth) spawn(r2.next(), depth + 1, maxdepth, width);
                     }));
             }
@@ -211,6 +253,16 @@ static void task_body(long id, std::uint64_t seed, int depth, int maxdepth, int 
                     g_flags.push_back(flag);
                 }
                 pika::util::yield_while([&] { return !flag->load(); }, "e2 spin");
+            }
+            else if (stopw)
+            {
+                {
+                    std::lock_guard<std::mutex> l(g_flag_mtx);
+                    g_pairs.push_back(pair);
+                }
+                std::unique_lock<std::mutex> lk(pair->m);
+                int me = pair->order++;
+                pair->cv.wait(lk, pair->src[me].get_token(), [] { return false; });
             }
             else if (timed)
             {
@@ -735,7 +787,11 @@ int main(int argc, char** argv)
         {
             std::this_thread::sleep_for(std::chrono::milliseconds(1));
             std::size_t cur = e2::g_log->size();
-            if (cur == prev && tm.get_thread_count(st::active) == 0) ++stable;
+            // internal helper tasks (set_thread_state for a thread that was still active) are not counted by the harness:
+            // the log ends at rest only when nothing is pending, staged or active any more
+            if (cur == prev && tm.get_thread_count(st::active) == 0 && tm.get_thread_count(st::pending) == 0 &&
+                tm.get_thread_count(st::staged) == 0)
+                ++stable;
             else stable = 0;
             prev = cur;
         }
